@@ -596,6 +596,7 @@ pub fn run(cfg: &Cfg) {
     let mut out = Out::new(&cfg.outdir);
     let mut rng = Prng::new(cfg.seed);
     exhaustive(&mut out, if cfg.thorough { 4 } else { 3 });
+    out.extra("exhaustive_match_cases", out.n.to_string());
     let (conn, _server) = peer::connect_pair(false);
     let send = Arc::new(Mutex::new(conn.send));
     tables(&mut out, &mut rng, if cfg.thorough { 4000 } else { 400 }, &send);
